@@ -335,6 +335,28 @@ mut('pad-buffer-not-zero', 'Most150MessageFragment.cpp', [["    /* skip padding 
 mut('end-of-queue-state-without-eof', 'ObjectQueue.cpp', [["template<typename T>\nObjectQueue<T>::~ObjectQueue() {", "namespace {\nconst std::ios_base::iostate endOfQueueState = std::ios_base::failbit;\n}\n\ntemplate<typename T>\nObjectQueue<T>::~ObjectQueue() {"],
                                                        ["        m_rdstate = std::ios_base::eofbit | std::ios_base::failbit;", "        m_rdstate = endOfQueueState;"]],
     ['C16'], ['Q2|read|empty'], 'the named end state lacks eofbit: the end of the queue is reported as a failure, never as end-of-file')
+# ---- round-6 rules
+mut('close-mode-by-equality', 'File.cpp', [["    /* read */\n    if (m_openMode & std::ios_base::in) {\n        /* finalize compressedFileThread */", "    /* read */\n    if (m_openMode == std::ios_base::in) {\n        /* finalize compressedFileThread */"]],
+    ['C13', 'C06'], ['M1|'], 'close() of a session opened with in | binary takes no branch: nothing is joined')
+mut('deflater-stops-on-output-error', 'File.cpp', [["            if (!file->m_uncompressedFile.good())\n                file->m_compressedFileThreadRunning = false;\n        }\n\n        /* set end of file */", "            if (!file->m_uncompressedFile.good() || !file->m_compressedFile.good())\n                file->m_compressedFileThreadRunning = false;\n        }\n\n        /* set end of file */"]],
+    ['C06', 'C13'], ['ends-on-input'], 'the compression thread leaves when the disk is full; the encoder in front of it blocks for ever')
+mut('empty-container-not-counted', 'File.cpp', [["    /* statistics */\n    currentUncompressedFileSize +=\n        logContainer->internalHeaderSize() +", "    if (logContainer->compressedFileSize == 0)\n        return;\n\n    /* statistics */\n    currentUncompressedFileSize +=\n        logContainer->internalHeaderSize() +"]],
+    ['C05'], ['H1|'], 'containers without payload are stepped over before they are counted')
+mut('seekg-clamp-forward-only', 'UncompressedFile.cpp', [["    m_tellg = std::min(static_cast<std::streamsize>(m_tellg + off), m_fileSize);", "    m_tellg += off;\n    if ((off > 0) && (m_tellg > m_fileSize))\n        m_tellg = m_fileSize;"]],
+    ['C15', 'C09'], ['S4|seekg'], 'a backward seek behind a lowered declared end stays behind it')
+mut('queue-write-clears-abort', 'ObjectQueue.cpp', [["    /* push data */\n    m_queue.push(obj);", "    /* new data opens the queue again */\n    m_abort = false;\n\n    /* push data */\n    m_queue.push(obj);"]],
+    ['C16', 'C06'], ['K15|'], 'a producer released by abort() re-arms the queue: the next read of the drained queue blocks')
+mut('worker-closes-file', 'File.cpp', [["    } catch (...) {\n        file->m_compressedFileThreadException = std::current_exception();\n    }\n\n    /* set end of file (on every way out, otherwise the consumer waits forever) */", "    } catch (...) {\n        file->m_compressedFileThreadException = std::current_exception();\n        file->m_compressedFile.close();\n    }\n\n    /* set end of file (on every way out, otherwise the consumer waits forever) */"]],
+    ['C13', 'C10'], ['O6|'], 'the worker closes the file: close() sees !is_open() and returns without joining')
+mut('level-read-before-stream-read', 'File.cpp', [["    /* setup new log container */\n    LogContainer logContainer;\n\n    /* copy data into LogContainer */", "    /* setup new log container */\n    LogContainer logContainer;\n    const int level = compressionLevel;\n\n    /* copy data into LogContainer */"],
+                                                  ["    if (compressionLevel == 0) {\n        /* no compression */\n        logContainer.compress(0, 0);\n    } else {\n        /* zlib compression */\n        logContainer.compress(2, compressionLevel);", "    if (level == 0) {\n        /* no compression */\n        logContainer.compress(0, 0);\n    } else {\n        /* zlib compression */\n        logContainer.compress(2, level);"]],
+    ['C14', 'C11', 'C04'], ['K9c|'], 'the level is fetched before the blocking read: an assignment between open() and the first write() may be missed')
+mut('step-back-in-int', 'File.cpp', [["    const std::streamoff readTooMuch = m_uncompressedFile.tellg() - (objectBegin + static_cast<std::streamoff>(ohb.objectSize));", "    const int readTooMuch = static_cast<int>(m_uncompressedFile.tellg() - (objectBegin + static_cast<std::streamoff>(static_cast<int>(ohb.objectSize))));"]],
+    ['C10', 'C09'], ['T1|'], 'the distance to the declared end is squeezed into an int')
+mut('writer-admitted-if-piece-fits', 'UncompressedFile.cpp', [["        ((m_tellp - m_tellg) < m_bufferSize) ||\n        (m_tellp < m_requestedEnd);\n    });\n\n    /* write data */", "        ((m_tellp - m_tellg) < m_bufferSize) ||\n        (m_tellp + n <= m_requestedEnd);\n    });\n\n    /* write data */"]],
+    ['C06', 'C07', 'C01'], ['T2|write|admission'], 'a piece that straddles the end of the request is not admitted although the reader waits for its first bytes')
+mut('can2-throws-after-header', 'CanMessage2.cpp', [["#include <Vector/BLF/CanMessage2.h>\n", "#include <Vector/BLF/CanMessage2.h>\n#include <Vector/BLF/Exceptions.h>\n"], ["    os.write(reinterpret_cast<char *>(data.data()), static_cast<std::streamsize>(data.size()));", "    if (data.size() > 8)\n        throw Exception(\"CanMessage2::write(): more than 8 data bytes\");\n    os.write(reinterpret_cast<char *>(data.data()), static_cast<std::streamsize>(data.size()));"]],
+    ['C03'], ['throws-after'], 'the encoder gives up after the header has been written')
 mut('objecttype-set-in-write', 'CanMessage.cpp', [["void CanMessage::write(AbstractFile & os) {\n    ObjectHeader::write(os);", "void CanMessage::write(AbstractFile & os) {\n    objectType = ObjectType::CAN_MESSAGE;\n    ObjectHeader::write(os);"]],
     ['C17'], ['D5|objectType|never-reassigned'], 'the encoder overwrites the type code the object carries')
 mut('file-write-diverts-restore-points', 'File.cpp', [["void File::write(ObjectHeaderBase * ohb) {\n", "void File::write(ObjectHeaderBase * ohb) {\n    if (ohb->objectType == ObjectType::Unknown115) {\n        delete ohb;\n        return;\n    }\n"]],
@@ -418,7 +440,7 @@ ben('compression-branch-inverted', 'File.cpp', [["    if (compressionLevel == 0)
 
 def main():
     for kind, lst in (('mutants', M), ('benign', G)):
-        d = os.path.join('/verif', kind)
+        d = os.path.join(os.environ.get('VERIF_ROOT', '/verif'), kind)
         for f in os.listdir(d):
             if f.endswith('.patch') and not f.startswith('agent') and not f.startswith('own-'):
                 os.remove(os.path.join(d, f))
@@ -446,23 +468,23 @@ def main():
     ext = []
     for k_, props_ in ext_props.items():
         notes = {}
-        np_ = os.path.join('/verif/benign', 'agent-%s-notes.json' % k_)
+        np_ = os.path.join(os.environ.get('VERIF_ROOT', '/verif') + '/benign', 'agent-%s-notes.json' % k_)
         if os.path.exists(np_):
             notes = {n_['name']: n_ for n_ in json.load(open(np_))}
         for i_ in range(1, 7):
             f_ = 'agent-%s-r%d.patch' % (k_, i_)
-            if os.path.exists(os.path.join('/verif/benign', f_)):
+            if os.path.exists(os.path.join(os.environ.get('VERIF_ROOT', '/verif') + '/benign', f_)):
                 ext.append({'name': 'agent-%s-r%d' % (k_, i_), 'patch': f_, 'properties': sorted(set(props_)),
                             'note': (notes.get('r%d' % i_, {}).get('what') or '')[:200], 'origin': 'sub-agent'})
     # second batch (structural refactorings: extracted helpers, lambdas, loop forms, named constants)
     for k_, props_ in ext_props.items():
         notes = {}
-        np_ = os.path.join('/verif/benign', 'agent2-%s-notes.json' % k_)
+        np_ = os.path.join(os.environ.get('VERIF_ROOT', '/verif') + '/benign', 'agent2-%s-notes.json' % k_)
         if os.path.exists(np_):
             notes = {n_['name']: n_ for n_ in json.load(open(np_))}
         for i_ in range(1, 7):
             f_ = 'agent2-%s-r%d.patch' % (k_, i_)
-            if os.path.exists(os.path.join('/verif/benign', f_)):
+            if os.path.exists(os.path.join(os.environ.get('VERIF_ROOT', '/verif') + '/benign', f_)):
                 e_ = {'name': 'agent2-%s-r%d' % (k_, i_), 'patch': f_, 'properties': sorted(set(props_)),
                       'note': (notes.get('r%d' % i_, {}).get('what') or '')[:200], 'origin': 'sub-agent'}
                 if (k_, i_) == ('u', 2):
@@ -472,44 +494,56 @@ def main():
     ALLP = ['C%02d' % i for i in range(1, 18)]
     for k_ in ext_props:
         notes = {}
-        np_ = os.path.join('/verif/benign', 'agent3-%s-notes.json' % k_)
+        np_ = os.path.join(os.environ.get('VERIF_ROOT', '/verif') + '/benign', 'agent3-%s-notes.json' % k_)
         if os.path.exists(np_):
             notes = {n_['name']: n_ for n_ in json.load(open(np_))}
         for i_ in range(1, 7):
             f_ = 'agent3-%s-r%d.patch' % (k_, i_)
-            if os.path.exists(os.path.join('/verif/benign', f_)):
+            if os.path.exists(os.path.join(os.environ.get('VERIF_ROOT', '/verif') + '/benign', f_)):
                 ext.append({'name': 'agent3-%s-r%d' % (k_, i_), 'patch': f_, 'properties': sorted(set(ext_props[k_]) | ({'C08', 'C09', 'C10', 'C15', 'C16'} if k_ in 'fu' else {'C08', 'C10'})),
                             'note': (notes.get('r%d' % i_, {}).get('what') or '')[:200], 'origin': 'sub-agent'})
     # fourth batch (after round 4 of the seeded changes; equivalent re-formulations, De Morgan, extracted helpers with reference parameters)
     for k_ in ext_props:
         notes = {}
-        np_ = os.path.join('/verif/benign', 'agent4-%s-notes.json' % k_)
+        np_ = os.path.join(os.environ.get('VERIF_ROOT', '/verif') + '/benign', 'agent4-%s-notes.json' % k_)
         if os.path.exists(np_):
             notes = {n_['name']: n_ for n_ in json.load(open(np_))}
         for i_ in range(1, 7):
             f_ = 'agent4-%s-r%d.patch' % (k_, i_)
-            if os.path.exists(os.path.join('/verif/benign', f_)):
+            if os.path.exists(os.path.join(os.environ.get('VERIF_ROOT', '/verif') + '/benign', f_)):
                 ext.append({'name': 'agent4-%s-r%d' % (k_, i_), 'patch': f_, 'properties': list(ALLP),
                             'note': (notes.get('r%d' % i_, {}).get('what') or '')[:200], 'origin': 'sub-agent'})
     # fifth batch (after round 5: comparison rewrites, De Morgan, reordered independent statements, named predicates / constants,
     # helpers reachable from the destructor only, local references, a zero-initialised local pad buffer); all properties
     for k_ in ('f', 'u', 'q', 'h', 'c', 'm'):
         notes = {}
-        np_ = os.path.join('/verif/benign', 'agent5-%s-notes.json' % k_)
+        np_ = os.path.join(os.environ.get('VERIF_ROOT', '/verif') + '/benign', 'agent5-%s-notes.json' % k_)
         if os.path.exists(np_):
             notes = {n_['name']: n_ for n_ in json.load(open(np_))}
         for i_ in range(1, 7):
             f_ = 'agent5-%s-r%d.patch' % (k_, i_)
-            if os.path.exists(os.path.join('/verif/benign', f_)):
+            if os.path.exists(os.path.join(os.environ.get('VERIF_ROOT', '/verif') + '/benign', f_)):
                 ext.append({'name': 'agent5-%s-r%d' % (k_, i_), 'patch': f_, 'properties': list(ALLP),
                             'note': (notes.get('r%d' % i_, {}).get('what') or '')[:200], 'origin': 'sub-agent'})
+    # sixth batch (after round 6: bit-test helpers for the open mode, renamed private members / methods, reordered disjuncts, helpers with
+    # parameters, stream accessor, lock wrapper taking a lambda, hand-written complete copy operations, 64-bit respellings of the step back)
+    for k_ in ('f', 'u', 'q', 'h', 'c', 'm'):
+        notes = {}
+        np_ = os.path.join(os.environ.get('VERIF_ROOT', '/verif') + '/benign', 'agent6-%s-notes.json' % k_)
+        if os.path.exists(np_):
+            notes = {n_['name']: n_ for n_ in json.load(open(np_))}
+        for i_ in range(1, 7):
+            f_ = 'agent6-%s-r%d.patch' % (k_, i_)
+            if os.path.exists(os.path.join(os.environ.get('VERIF_ROOT', '/verif') + '/benign', f_)):
+                ext.append({'name': 'agent6-%s-r%d' % (k_, i_), 'patch': f_, 'properties': list(ALLP),
+                            'note': (notes.get('r%d' % i_, {}).get('what') or '')[:200], 'origin': 'sub-agent'})
     # hand-made multi-file variants kept as patches (benign/own-*.patch): checked against every property
-    for f_ in sorted(os.listdir('/verif/benign')):
+    for f_ in sorted(os.listdir(os.environ.get('VERIF_ROOT', '/verif') + '/benign')):
         if f_.startswith('own-') and f_.endswith('.patch'):
             ext.append({'name': f_[:-6], 'patch': f_, 'properties': list(ALLP), 'note': 'hand-made variant', 'origin': 'own'})
     idx = {'mutants': [{k: v for k, v in m.items() if k not in ('pairs', 'extra_edits', 'all_occurrences')} for m in M],
            'benign': [{k: v for k, v in m.items() if k not in ('pairs', 'extra_edits')} for m in G] + ext}
-    json.dump(idx, open('/verif/mutants/index.json', 'w'), indent=1)
+    json.dump(idx, open(os.environ.get('VERIF_ROOT', '/verif') + '/mutants/index.json', 'w'), indent=1)
     print('%d mutants, %d benign variants (+%d from sub-agents)' % (len(M), len(G), len(ext)))
 
 
